@@ -155,6 +155,9 @@ pub enum Ctor {
     /// Parser::new(LineReader::new(reader)) on a reader (chunk size c) that has already been advanced
     /// over a p-byte preamble which is not part of the document ("line 1 starts at the current position")
     AfterPreamble(usize, usize),
+    /// Parser::new on a reader (chunk size c) that has already looked ahead to the end of the source
+    /// (a caller sniffing the format / pre-buffering): data and a possible I/O error are parked in it
+    Prefetched(usize),
 }
 
 impl Ctor {
@@ -165,6 +168,7 @@ impl Ctor {
             Ctor::FromBoxed => "from_boxed_dyn_read".into(),
             Ctor::FromBufReader(c) => format!("from_buf_reader(cap={},prefilled)", c),
             Ctor::AfterPreamble(p, c) => format!("new(reader advanced over a {}-byte preamble, chunk={})", p, c),
+            Ctor::Prefetched(c) => format!("new(reader that already looked ahead to the end, chunk={})", c),
         }
     }
 }
@@ -195,6 +199,12 @@ fn line_reader(src: Src, ctor: Ctor) -> Option<LineReader<'static>> {
             let mut r = DeferredReader::from_read(src);
             r.set_chunk_size(c);
             Some(if c % 2 == 1 { LineReader::from(r) } else { LineReader::new(r) })
+        }
+        Ctor::Prefetched(c) => {
+            let mut r = DeferredReader::from_read(src);
+            r.set_chunk_size(c);
+            while r.request_more() {}
+            Some(LineReader::new(r))
         }
         Ctor::AfterPreamble(p, c) => {
             // the preamble comes from a Cursor chained in front of the monitored source: Chain never
@@ -240,7 +250,7 @@ macro_rules! dimacs_runner {
             use flussab_cnf::$module::{Config, Parser};
             let cfg = Config::default().ignore_header(flag);
             let p = match ctor {
-                Ctor::Chunk(_) | Ctor::AfterPreamble(..) => Parser::<L>::new(line_reader(src, ctor).unwrap(), cfg),
+                Ctor::Chunk(_) | Ctor::AfterPreamble(..) | Ctor::Prefetched(_) => Parser::<L>::new(line_reader(src, ctor).unwrap(), cfg),
                 Ctor::FromRead => Parser::<L>::from_read(src, cfg),
                 Ctor::FromBoxed => Parser::<L>::from_boxed_dyn_read(Box::new(src), cfg),
                 Ctor::FromBufReader(c) => Parser::<L>::from_buf_reader(prefilled(src, c), cfg),
@@ -270,7 +280,15 @@ macro_rules! dimacs_runner {
                         }
                         return Outcome::End;
                     }
-                    Err(e) => return cnf_err(e),
+                    Err(e) => {
+                        let o = cnf_err(e);
+                        if matches!(o, Outcome::Io(_)) {
+                            // a caller that asks again after an I/O error: the failed source must not be
+                            // touched again (the monitors look at the source's call log)
+                            let _ = p.next_clause();
+                        }
+                        return o;
+                    }
                 }
             }
         }
@@ -319,7 +337,7 @@ fn run_log<L: flussab_cnf::Dimacs + Display>(
 ) -> Outcome {
     use flussab_cnf::sat_solver_log::{parse_log, Config};
     let mut lr = match ctor {
-        Ctor::Chunk(_) | Ctor::AfterPreamble(..) => line_reader(src, ctor).unwrap(),
+        Ctor::Chunk(_) | Ctor::AfterPreamble(..) | Ctor::Prefetched(_) => line_reader(src, ctor).unwrap(),
         Ctor::FromRead => LineReader::new(DeferredReader::from_read(src)),
         Ctor::FromBoxed => LineReader::new(DeferredReader::from_boxed_dyn_read(Box::new(src))),
         Ctor::FromBufReader(c) => LineReader::new(DeferredReader::from_buf_reader(prefilled(src, c))),
@@ -424,7 +442,7 @@ fn run_aag<L: flussab_aiger::Lit + Display>(
     use flussab_aiger::ascii::{Config, Parser};
     let cfg = Config::default();
     let p = match ctor {
-        Ctor::Chunk(_) | Ctor::AfterPreamble(..) => Parser::<L>::new(line_reader(src, ctor).unwrap(), cfg),
+        Ctor::Chunk(_) | Ctor::AfterPreamble(..) | Ctor::Prefetched(_) => Parser::<L>::new(line_reader(src, ctor).unwrap(), cfg),
         Ctor::FromRead => Parser::<L>::from_read(src, cfg),
         Ctor::FromBoxed => Parser::<L>::from_boxed_dyn_read(Box::new(src), cfg),
         Ctor::FromBufReader(c) => Parser::<L>::from_buf_reader(prefilled(src, c), cfg),
@@ -664,7 +682,7 @@ fn run_aig<L: flussab_aiger::Lit + Display>(
     use flussab_aiger::binary::{Config, Parser};
     let cfg = Config::default();
     let p = match ctor {
-        Ctor::Chunk(_) | Ctor::AfterPreamble(..) => Parser::<L>::new(line_reader(src, ctor).unwrap(), cfg),
+        Ctor::Chunk(_) | Ctor::AfterPreamble(..) | Ctor::Prefetched(_) => Parser::<L>::new(line_reader(src, ctor).unwrap(), cfg),
         Ctor::FromRead => Parser::<L>::from_read(src, cfg),
         Ctor::FromBoxed => Parser::<L>::from_boxed_dyn_read(Box::new(src), cfg),
         Ctor::FromBufReader(c) => Parser::<L>::from_buf_reader(prefilled(src, c), cfg),
@@ -1001,7 +1019,7 @@ fn run_btor2(ctor: Ctor, src: Src, on_item: &mut dyn FnMut(&str)) -> Outcome {
     use flussab_btor2::{Config, Parser};
     let cfg = Config::default();
     let p = match ctor {
-        Ctor::Chunk(_) | Ctor::AfterPreamble(..) => Parser::new(line_reader(src, ctor).unwrap(), cfg),
+        Ctor::Chunk(_) | Ctor::AfterPreamble(..) | Ctor::Prefetched(_) => Parser::new(line_reader(src, ctor).unwrap(), cfg),
         Ctor::FromRead => Parser::from_read(src, cfg),
         Ctor::FromBoxed => Parser::from_boxed_dyn_read(Box::new(src), cfg),
         Ctor::FromBufReader(c) => Parser::from_buf_reader(prefilled(src, c), cfg),
@@ -1024,7 +1042,13 @@ fn run_btor2(ctor: Ctor, src: Src, on_item: &mut dyn FnMut(&str)) -> Outcome {
                 }
                 return Outcome::End;
             }
-            Err(e) => return btor_err(e),
+            Err(e) => {
+                let o = btor_err(e);
+                if matches!(o, Outcome::Io(_)) {
+                    let _ = p.next_line();
+                }
+                return o;
+            }
         }
     }
 }
@@ -1136,6 +1160,7 @@ pub fn random_ctor(rng: &mut crate::prng::Rng) -> Ctor {
         2 => Ctor::FromBufReader(1 + rng.usize(100)),
         3 => Ctor::FromBufReader(*rng.pick(&[4096usize, 16384, 16385, 20000, 40000, 70000])),
         4 | 5 => Ctor::AfterPreamble(1 + rng.usize(60), *rng.pick(&CTOR_CHUNKS)),
+        6 | 7 => Ctor::Prefetched(*rng.pick(&CTOR_CHUNKS)),
         _ => Ctor::Chunk(*rng.pick(&CTOR_CHUNKS)),
     }
 }
